@@ -31,7 +31,7 @@ SUITES = {
     "C01": {
         "quick": [("km", ["st_insert__u4f", "st_insert__s8_4a", "st_insert__s8_e", "st_insert__s4f_e",
                           "st_remove__s8_4a", "st_remove__s8_8g0", "st_remove__s8m0_4a", "st_remove_entry__s8_4one",
-                          "st_lookup__s8_8g0", "st_lookup__u8_3t", "st_clear__s8_8g4", "st_clear__s8m0_4a",
+                          "st_lookup__s8_8g0", "st_lookup__s8m0_4a", "st_lookup__u8_3t", "st_clear__s8_8g4", "st_clear__s8m0_4a",
                           "st_raw_replace_with__s8_8g0", "it_iter_mut__s8_4a",
                           "zst_remove__old", "zst_remove__old2", "zst_insert__old", "en_raw_or_insert__u4f", "en_raw_vacant_with_hasher__u4f",
                           # extend / from_iter go through reserve: no undocumented panic, contents kept
@@ -49,12 +49,15 @@ SUITES = {
                      ("km", ["st_insert__*", "st_lookup__*", "st_remove__*", "en_vacant_insert__*", "en_raw_*", "en_occ_*", "rt_retain__*"])],
     },
     "C03": {
-        "quick": [("km-cnt", ["cnt_insert__unsplit", "cnt_insert__split", "cnt_insert__split_empty", "cnt_remove__split", "cnt_clear__split", "cnt_reserve__split", "cnt_insert3__split_completes"]),
+        "quick": [("km-cnt", ["cnt_insert__unsplit", "cnt_insert__split", "cnt_insert__split_empty", "cnt_remove__split", "cnt_clear__split", "cnt_reserve__split", "cnt_insert3__split_completes", "cnt_vacant_insert__split"]),
                   ("km", ["st_remove__s8_4one", "st_remove__s8m0_4a", "st_insert__s8_4a", "st_insert__s8_8g4", "st_clear__s8_e", "st_clear__s8m0_4a",
                           "en_occ_remove__s8_4one", "rt_drain_filter__s8_4a_m0111_end", "rt_drain_filter__s8_8g4_m110_end",
-                          "it_drain__s8_4a_j1", "rt_retain__s8_8g0"])],
+                          "it_drain__s8_4a_j1", "rt_retain__s8_8g0",
+                          # every other key-adding path makes the same progress as HashMap::insert
+                          "en_vacant_insert__s8_4a", "en_raw_or_insert__s8_4a", "en_raw_vacant_hashed__s8_4a", "se_get_or_insert__s8_4a", "se_insert__s8_4a"])],
         "thorough": [("km-cnt", ["cnt_*"]),
-                     ("km", ["st_remove__*", "st_insert__*", "st_clear__*", "en_occ_remove*", "rt_drain_filter__*", "it_drain__*", "rt_retain__*"]),
+                     ("km", ["st_remove__*", "st_insert__*", "st_clear__*", "en_occ_remove*", "rt_drain_filter__*", "it_drain__*", "rt_retain__*",
+                             "en_vacant_insert__*", "en_raw_*", "se_get_or_insert*", "se_insert__*"]),
                      ("km-r4", ["st_insert__s16_8", "st_insert__s8_8g0"])],
     },
     "C04": {
@@ -69,7 +72,7 @@ SUITES = {
         "quick": [("km", ["st_remove__s8_8g0", "st_remove__s8_8g4", "st_raw_replace_with__s8_8g0", "st_raw_replace_with__s8_8g4",
                           "rt_retain__s8_8g0", "rt_drain_filter__s8_8g0_m1110_end", "rt_drain_filter__s8_4a_m0111_end",
                           "zst_remove__old", "zst_remove__old2", "zst_retain__old2_drop", "zst_retain__old2_keep", "en_occ_remove__s8_8g4", "en_occ_replace_with__s8_8g0", "en_occ_insert__s8_8g4",
-                          "it_drain__s8_8g4_j1", "it_into_iter__s8_8g4_j1", "st_insert__s8_8g4"]),
+                          "it_drain__s8_8g4_j1", "it_into_iter__s8_8g4_j1", "st_insert__s8_8g4", "cl_clone_from__s8_4a__u4f"]),
                   ("km-rel", ["st_raw_replace_with__s8_8g0", "st_remove__s8_8g0"]),
                   ("kv", ["kv_reflect_insert_is_not_an_inverse", "kv_replace_bucket_with_restores", "kv_sizing_small"]),
                   ("kr", ["kr_split_prefix_is_split"])],
